@@ -381,15 +381,15 @@ pub fn run(args: &Args, rep: &mut Report) {
     for m in subject::primary_modes() {
         for (i, &len) in ROOT_LENS.iter().enumerate() {
             // deeper exploration for two roots in the quick tier, for all in the thorough tier
-            let depth = if t { 5 } else if i == 3 || i == 5 { 4 } else { 3 };
+            let depth = if t { 6 } else if i == 3 || i == 5 { 5 } else { 4 };
             items.push(Root { mode: m.clone(), len, via_hazmat: false, depth });
         }
         for &len in [1025usize, 2048, 17 * 1024].iter() {
-            items.push(Root { mode: m.clone(), len, via_hazmat: true, depth: if t { 4 } else { 3 } });
+            items.push(Root { mode: m.clone(), len, via_hazmat: true, depth: if t { 5 } else { 4 } });
         }
     }
     if t {
-        items.push(Root { mode: ModeSpec::Hash, len: 65, via_hazmat: false, depth: 6 });
+        items.push(Root { mode: ModeSpec::Hash, len: 65, via_hazmat: false, depth: 7 });
     }
     let mut work = vec![];
     for r in items {
@@ -406,7 +406,7 @@ pub fn run(args: &Args, rep: &mut Report) {
     rep.rule = "BFS over the real OutputReader from each root (input lengths x 3 modes x finalize_xof / merge_subtrees_root_xof x every SIMD level): fill(n), Read::read(n), set_position(p), seek(Start/Current/End) from every reachable reader state, merged on the complete reader state, depth-bounded; every returned byte compared with the spec stream, positions and error behaviour checked; non-trivial = distinct states at depth >= 2".into();
     rep.extra.insert("bounds".into(), json!({"read_sizes": READ_SIZES, "positions": positions().iter().map(|p| p.to_string()).collect::<Vec<_>>(),
         "current_deltas": CURRENT_DELTAS.iter().map(|p| p.to_string()).collect::<Vec<_>>(), "root_input_lens": ROOT_LENS,
-        "depth": if t { "5 (6 for one root, 4 for hazmat roots)" } else { "3 (4 for two roots per mode)" }}));
+        "depth": if t { "6 (7 for one root, 5 for hazmat roots)" } else { "4 (5 for two roots per mode)" }}));
     rep.assumptions.push("reads are only issued while p+n <= 2^64-1 (behaviour beyond is unspecified)".into());
     rep.assumptions.push("root inputs are prefixes of stream A".into());
 }
